@@ -14,3 +14,4 @@ import ChessVerif.Model.SearchReal
 #print axioms ChessVerif.Props.C07real.ponder_legal_after_bestmove_real
 #print axioms ChessVerif.Props.C07real.ponder_legal_after_bestmove_rules
 #print axioms ChessVerif.Props.C07real.depths_increase_nodes_monotone_real
+#print axioms ChessVerif.Props.C07.bufIx_eq_translated
